@@ -227,7 +227,10 @@ def body_cli(case, rec):
                 key = "other_haplotypes"
             else:
                 # haplotype files are <root>.<hap>.<v>.primary.curated.* or, when a primary assembly exists as well, <root>.<v>.<hap>s.curated.*
-                key = next((h for h in haps if f".{h}." in nm or f".{h}s." in nm), "primary" if case.get("primary_mode") else "none")
+                import re
+
+                m = re.match(r"x\.(.+)\.1\.primary\.curated\.", nm) or re.match(r"x\.1\.(.+)s\.curated\.", nm)
+                key = m.group(1) if m and m.group(1) in haps else ("primary" if case.get("primary_mode") else "none")
                 if ".curated." not in nm:
                     raise Violation(f"curated assembly file without '.curated.' in its name: {nm}")
             for n, rows in ref.read_agp(f.read_text())[1]:
